@@ -15,11 +15,12 @@ CLAIM = ("For every accepted generated grammar (literals, descriptions and comma
          "labelled edge per transition with the label of its item as displayed by graphviz (escString), one cluster per within-word "
          "automaton with its own nodes and edges and dashed entry / exit edges at its start / accepting states; in the --regex file every "
          "position of the main and of every within-word regex appears as a node with its item's text. Theorem dot_label_roundtrip: the "
-         "label escaping chains regenerated from the source are read back by the DOT string reader as the original text, for every string.")
+         "label escaping chains regenerated from the source are read back by the DOT string reader as the original text, for every string. "
+         "Over a Lean model of the emitter DFA::to_dot itself (Model/DotEmit.lean, compared byte for byte with the real --dfa file on every case of the run, for the automaton the real library dumps): dfa_dump_shows_the_automaton — for every automaton, pool of within-word automata and numbering base, whatever characters literals / descriptions / commands contain, the text the emitter writes is read by the DOT reader as exactly the expected graph (one node per state with its shape, one labelled edge per transition, one cluster per within-word automaton with dashed entry / exit edges); dfa_dump_well_formed; dfa_label_displayed. The --regex emitter is not modelled.")
 NOTE = ("graphviz is not installed: Model/Dot.lean (transcribed from the DOT grammar and scan.l) is the judge of well-formedness — trusted "
         "base. Descriptions in generated grammars are printable text so that Rust's {:?} rendering is predictable. The theorem "
         "render_dfa_parses over a Lean renderer model is open.")
-TECHNIQUE = "Lean DOT lexer/parser applied to the real dump files + graph comparison with the library's automaton; Lean theorem on the label escaping chains"
+TECHNIQUE = "Lean DOT lexer/parser applied to the real dump files + graph comparison with the library's automaton; Lean theorems: label escaping chains, and parse(emit) = expected graph over a model of the --dfa emitter tied byte-exactly to the real file"
 DESIGN_REF = "§3 C16"
 
 BASE = {"bash": 0, "fish": 1, "zsh": 1, "pwsh": 0}
@@ -136,6 +137,13 @@ def expected_auto(d, base, prefix):
         if lab is not None:
             edges.add((f"_{prefix}{f + base}", f"_{prefix}{t + base}", lab, None))
     return nodes, edges
+
+
+def auto_wire(a):
+    """an automaton of the vh dump on the wire of the driver's `dotemit`"""
+    return ";".join([str(a["start"]), ",".join(map(str, a["acc"])) or "-",
+                     "~".join(f"{f}.{i}.{t}" for f, i, t in a["trans"]) or "-",
+                     "|".join(x.replace(" ", "_") for x in a["inputs"]) or "-"])
 
 
 def check_dfa(ctx, rp, rec, base, parsed):
@@ -257,6 +265,26 @@ def run(ctx, proof):
         for which, data in (("dfa", dfa), ("rx", rx)):
             reqs.append("dot " + core.hexs(data))
             plan.append((which, rp, rec, sh, data))
+    # the Lean model of DFA::to_dot (Model/DotEmit.lean; theorem dot_dump_parses: what it writes always parses to
+    # the graph of the automaton) on the automaton of the real library: byte for byte the real --dfa file
+    ereqs, eplan = [], []
+    for (which, rp, rec, sh, data) in plan:
+        if which == "dfa" and "min" in rec:
+            ereqs.append(f"dotemit {BASE[sh]} {auto_wire(rec['min'])} " + ("&".join(auto_wire(x) for x in rec["subdfas"]) or "-"))
+            eplan.append((rp, sh, data))
+    for (rp, sh, data), a in zip(eplan, core.driver_parallel(ereqs)):
+        f = a.split(" ")
+        if f[0] != "ok" or len(f) != 3:
+            ctx.correspondence_breaks.append(("dot-emitter-model", {"grammar": rp["grammar"], "shell": sh, "answer": a[:200]}))
+            continue
+        if f[2] != "1" or not all(c.isascii() or c.isprintable() for c in rp["grammar"]):
+            ctx.count("dot-emitter-model:description-outside-scope")
+            continue
+        ctx.count("dot-emitter-model:compared")
+        if bytes.fromhex(f[1]) != data:
+            ctx.correspondence_breaks.append(("dot-emitter-model", {
+                "grammar": rp["grammar"], "shell": sh, "model": bytes.fromhex(f[1]).decode("utf-8", "replace")[:1500],
+                "file": data.decode("utf-8", "replace")[:1500]}))
     ans = core.driver_parallel(reqs)
     for (which, rp, rec, sh, data), a in zip(plan, ans):
         parsed = parse_dump(a)
